@@ -250,6 +250,7 @@ func writePacket(t *testing.T) {
 		t.Fatalf("infrastructure: %v", err)
 	}
 	defer d.Close()
+	n0 := n
 	gnb, err := stack.NewSock(n.IP(10), 2152)
 	if err != nil {
 		t.Fatalf("infrastructure: %v", err)
@@ -314,6 +315,63 @@ func writePacket(t *testing.T) {
 			}
 		}
 	}
+	// back to back: when a FAR stops buffering, its packets are re-injected one right after the other; each datagram must still be
+	// its own packet (2-12 packets written without reading in between, then read and matched by their TEIDs)
+	vcore.Check(t, vcore.N(300, 4000), func(rt *rapid.T) {
+		n := rapid.IntRange(2, 12).Draw(rt, "burst")
+		type pk struct {
+			teid uint32
+			qfi  int
+			pl   []byte
+		}
+		var sent []pk
+		base := rapid.Uint32Range(0, 1<<32-64).Draw(rt, "teid0")
+		for i := 0; i < n; i++ {
+			sent = append(sent, pk{teid: base + uint32(i), qfi: rapid.IntRange(-1, 63).Draw(rt, "qfi"),
+				pl: payload(rapid.OneOf(rapid.IntRange(0, 64), rapid.IntRange(0, 1500)).Draw(rt, "len"), byte(i))})
+		}
+		vcore.E.Eval()
+		vcore.E.Class("through_WritePacket:back_to_back")
+		for _, p := range sent {
+			far := &gtp5gnl.FAR{Param: &gtp5gnl.ForwardParam{Creation: &gtp5gnl.HeaderCreation{Desc: 0x0100, TEID: p.teid, PeerAddr: net.ParseIP(n0.IP(10)).To4(), Port: 2152}}}
+			var qer *gtp5gnl.QER
+			if p.qfi >= 0 {
+				qer = &gtp5gnl.QER{QFI: uint8(p.qfi)}
+			}
+			pl := p.pl
+			if err := safeWrite(func() error { return d.G.WritePacket(far, qer, pl) }); err != nil {
+				vcore.Report(rt, vcore.Violatef("writepacket-error", "WritePacket: %v", err), Case{TEID: p.teid, Payload: p.pl})
+				return
+			}
+		}
+		got := map[uint32]*gtpref.Packet{}
+		for i := 0; i < n; i++ {
+			b, err := gnb.RecvTimeout(5 * time.Second)
+			if err != nil {
+				vcore.Report(rt, vcore.Violatef("writepacket-lost", "burst of %d re-injected packets: datagram %d did not arrive: %v", n, i, err), Case{TEID: base})
+				return
+			}
+			pp, derr := gtpref.Decode(b)
+			if derr != nil {
+				vcore.Report(rt, vcore.Violatef("malformed", "burst of %d packets written back to back: datagram %d is rejected by the reference decoder: %v", n, i, derr), Case{TEID: base})
+				return
+			}
+			got[pp.TEID] = pp
+		}
+		for i, p := range sent {
+			pp := got[p.teid]
+			if pp == nil {
+				vcore.Report(rt, vcore.Violatef("writepacket-fields", "burst of %d packets written back to back: no datagram carries TEID %#x of packet %d", n, p.teid, i), Case{TEID: p.teid, Payload: p.pl})
+				return
+			}
+			q, has := pp.QFI()
+			if !bytes.Equal(pp.Payload, p.pl) || has != (p.qfi >= 0) || (has && int(q) != p.qfi) {
+				vcore.Report(rt, vcore.Violatef("writepacket-fields", "burst of %d packets written back to back: packet %d (teid %#x, qfi %d, %d payload octets) arrived with qfi %d (present %v) and %d payload octets",
+					n, i, p.teid, p.qfi, len(p.pl), q, has, len(pp.Payload)), Case{TEID: p.teid, Payload: p.pl})
+				return
+			}
+		}
+	})
 	vcore.Check(t, vcore.N(1500, 20000), func(rt *rapid.T) {
 		l := rapid.OneOf(rapid.IntRange(0, 9000), rapid.IntRange(1480, 1520), rapid.IntRange(0, 64)).Draw(rt, "len")
 		one(rt, rapid.Uint32().Draw(rt, "teid"), rapid.IntRange(-1, 63).Draw(rt, "qfi"), l)
